@@ -250,14 +250,21 @@ func rewrite(path string, doSync, doClock, doRand, doDelay, doStmt bool) ([]byte
 			}
 			return out
 		}
+		clauseHolders := map[*ast.BlockStmt]bool{} // bodies of switch / select statements hold clauses, not statements
 		ast.Inspect(file, func(n ast.Node) bool {
 			switch x := n.(type) {
 			case *ast.FuncDecl:
 				if x.Name.Name == "init" {
 					return false
 				}
+			case *ast.SwitchStmt:
+				clauseHolders[x.Body] = true
+			case *ast.TypeSwitchStmt:
+				clauseHolders[x.Body] = true
+			case *ast.SelectStmt:
+				clauseHolders[x.Body] = true
 			case *ast.BlockStmt:
-				if len(x.List) > 0 {
+				if len(x.List) > 0 && !clauseHolders[x] {
 					x.List = withPoints(x.List)
 					needSched = true
 				}
